@@ -142,6 +142,37 @@ PROPS = {
              "Into (entry_ref) and extend-iterator panics are covered by the entry profile once C14's tie is present. Panics "
              "inside Drop while already unwinding abort the process by Rust's rules and are excluded.",
     ),
+    "C08": dict(
+        module="Hb.Props.C08",
+        ties=[("scen", "reserve", 300, 10000), ("scen", "mixed", 200, 6000), ("scen", "saturate", 60, 2000), ("t1", {})],
+        backends=["sse2", "portable"],
+        design="§7 C08",
+        text="Lean theorems over every table state satisfying the API invariant (any tombstone pattern), every hasher and "
+             "allocator oracle: capacity>=len; reserve/with_capacity give capacity>=len+n; reserving or inserting within "
+             "capacity()-len() performs no allocator request; shrink_to keeps all elements, never enlarges, leaves "
+             "capacity>=max(len,min(m,old capacity)), frees when empty and m=0, and ends no larger than with_capacity(max(len,m)); "
+             "allocation_size equals the layout size of the table's own bucket count. Tie: boundary-dense reserve/"
+             "try_reserve/shrink histories with full dump + allocator events compared with the model, direct capacity "
+             "oracle on the real collection around every call, both back-ends; capacity arithmetic regenerated (T1).",
+        note="Trusted: Lean kernel, axioms propext/Classical.choice/Quot.sound; harness, hooks, protocol. clear/drain keeping "
+             "the allocation: theorem in Hb.Proofs.ApiBulk when present, otherwise by tie + direct oracle only. HashSet/"
+             "HashTable share RawTable::reserve/shrink_to; their wrappers are tied by the set/table profiles.",
+    ),
+    "C12": dict(
+        module="Hb.Props.C12",
+        ties=[("scen", "alloc-reserve", 12, 300), ("scen", "reserve", 200, 6000), ("t1", {})],
+        backends=["sse2", "portable"],
+        design="§7 C12",
+        text="Lean theorem try_reserve_contract for every table state (API invariant), amount, allocator oracle and hasher: "
+             "Ok with capacity>=len+additional, or CapacityOverflow / AllocError{refused layout} with table and event log "
+             "exactly as before; never abort, never the capacity panic, never a fault (only a user hasher panic can unwind); "
+             "every layout handed to the allocator is a calculate_layout_for result (valid by C17). Tie: allocator-refusal "
+             "sweeps (the j-th request of every try_reserve of a base history is refused, for every j) and boundary amounts "
+             "(around 7/8*2^k, isize::MAX/size, usize::MAX) with full state + allocator events compared with the model; direct "
+             "oracle on the real collection: Err => dump identical and no event, AllocError carries the refused layout.",
+        note="Trusted: Lean kernel, axioms propext/Classical.choice/Quot.sound; harness (tape allocator), hooks, protocol. "
+             "Zero-sized element layouts are exercised by the table profile (C06) rather than here.",
+    ),
     "C09": dict(
         module="Hb.Props.C09",
         ties=[("scen", "iter", 300, 10000), ("scen", "mixed", 200, 6000), ("scen", "saturate", 40, 2000)],
